@@ -5,7 +5,7 @@ ROOT = os.path.dirname(os.path.dirname(os.path.abspath(__file__)))
 
 # id -> (technique, level text, level note, design ref)
 CHECKS = {
- "C07": ("metamorphic property-based testing (proptest): triples built from equivalence-preserving and near-miss variants, both directions against a reference equivalence (R-EQUIV), RST laws, 23 cross-type impls, every comparison under catch_unwind; values paired with prefix views of their own buffer and with base()/directory()/parent views (same start address); long near-miss values of every length 1..300",
+ "C07": ("metamorphic property-based testing (proptest): triples built from equivalence-preserving and near-miss variants, both directions against a reference equivalence (R-EQUIV), RST laws, 23 cross-type impls, every comparison under catch_unwind; values paired with prefix views of their own buffer and with base()/directory()/parent views (same start address); long near-miss values of every length 1..300; case flips inside IP-literals as near misses",
          "300 k triples per quick run over 11 comparable kinds x 2 families, incl. ill-formed %XX octets; the expected verdict is computed from the two texts by the documented rule, independently of how the variant was made.",
          "Trusts the octet decoder / Appendix-B splitter / dot-segment model in the harness.", "DESIGN.md 4/C07"),
  "C08": ("metamorphic property-based testing (proptest): Eq=>Hash under two fixed hashers, total-order laws, owned vs borrowed, cross-type PartialOrd, every Borrow view incl. HashSet/BTreeSet lookups (third hasher is sensitive to how bytes are split over write calls); values paired with prefix views of their own buffer; long near-miss values",
@@ -14,7 +14,7 @@ CHECKS = {
  "C13": ("differential property-based testing (proptest): 42 conversion routes against the independent recogniser, and URI-family vs IRI-family on the same ASCII input (components, ==/cmp/hash, resolution, editing traces); conversions also on misaligned / re-used buffers and with one non-ASCII scalar at every alignment; comparison against prefix views of the same buffer and against values differing only in query and fragment",
          "150 k cases per quick run; success iff the target grammar accepts, text/address preserved, failure hands back the original.",
          "Trusts R-ABNF for the expected success of each conversion.", "DESIGN.md 4/C13"),
- "C14": ("property-based testing (proptest): (type, input) x ~30 routes out and ~25 routes in (incl. serde value deserialisers for strings and byte strings), text identity and accept-iff-constructor-accepts; plain-text comparison judged route by route (str, &str, String, [u8], &[u8], [u8; N], borrowed and owned) incl. sub-slices of the value's own text; cross-type AsRef/Borrow views; clone_from",
+ "C14": ("property-based testing (proptest): (type, input) x ~30 routes out and ~25 routes in (incl. serde value deserialisers for strings and byte strings), text identity and accept-iff-constructor-accepts; plain-text comparison judged route by route (str, &str, String, [u8], &[u8], [u8; N], borrowed and owned) incl. sub-slices of the value's own text; cross-type AsRef/Borrow views; clone_from; ~50 non-text serde tokens (integers, floats, bool, char, unit, null, arrays, objects) per case into every owned type: an Ok value must be valid; widening into UriError/IriError keeps variant and input",
          "150 k (type, input) pairs per quick run over valid, mutated and ill-formed-UTF-8 inputs for all 20 types.",
          "Routes in are judged against the library's checked constructor (whose language is C01's subject).", "DESIGN.md 4/C14"),
  "C15": ("round-trip property-based testing (proptest): pairs around a shared stem; relative_to then resolution, judged by the library and by the reference resolver/equivalence; pairs that are views of one buffer (both ways round) and a value relative to itself",
@@ -36,7 +36,7 @@ CHECKS = {
          "100 k inputs per quick run (incl. > 64 KiB), ~35 read-only calls each inside one armed region; allocation count must be 0 and every slice must lie in the input in component order.",
          "Allocating operations (normalized*, suffix, relative_to, to_owned, resolution) are outside the statement.", "DESIGN.md 4/C20"),
 
- "C01": ("exhaustive enumeration (every byte / Unicode scalar value per context, all short strings over a focused alphabet, all IPv6/dec-octet shapes) + proptest (grammar derivations, mutants, random bytes), differential against an independent RFC 3986/3987 recogniser; libFuzzer in thorough; every non-sweep input is also judged at an odd offset of a larger buffer and in a buffer re-used from the previous input of that length",
+ "C01": ("exhaustive enumeration (every byte / Unicode scalar value per context, all short strings over a focused alphabet, all IPv6/dec-octet shapes) + proptest (grammar derivations, mutants, random bytes), differential against an independent RFC 3986/3987 recogniser; libFuzzer in thorough; every non-sweep input is also judged at an odd offset of a larger buffer and in a buffer re-used from the previous input of that length; rejected inputs are also widened into UriError/IriError (variant and untouched input kept)",
          "Both directions of 'accepted iff derivable' on ~60 M enumerated and ~400 k random (type, input) pairs per quick run, through every construction route, with text/payload identity. Closes all single-token and short-string sub-domains completely; longer inputs are sampled.",
          "Trusts the hand-transcribed RFC grammar (self-checked: RFC example tables, interpreter vs automaton, direct IPv4/IPv6 recogniser). The driver's stamp makes the verdict one about the current grammar/automaton files.", "DESIGN.md 4/C01"),
  "C03": ("exhaustive product of user-info x host x port pools + proptest random authorities, vs RFC 3986 3.2 splitter oracle; every authority read inside 5 schemes x 8 tails, misaligned and in a re-used buffer; every ordered pair of 72 equal-length authorities read one after the other from one buffer",
@@ -51,20 +51,20 @@ CHECKS = {
  "C06": ("property-based testing (proptest): (base, reference) pairs from a dot-rich structural generator, differential against an own RFC 3986 5.2 resolver; three entry points and two families compared; libFuzzer in thorough; complete product 96 bases x ~900 references; the same reference against a sibling base right after (state between calls); base and reference as views of one buffer",
          "300 k pairs per quick run over all 5.2.2 branches x base shapes (class floors per cell), byte-identical comparison with the RFC target when it is unambiguous, validity + component + path-rendering check when it is not.",
          "Trusts the harness resolver (R-NORM self-checked against a literal 5.2.4). For relative merged paths whose normal form starts with an empty segment both the literal and the Errata-4547 reading are accepted (the statement does not settle it).", "DESIGN.md 4/C06"),
- "C09": ("exhaustive enumeration of all paths <= 6 segments over {a,b:c,'',.,..} (stand-alone + 3 embeddings) + proptest random long paths, vs dot-segment model; lengths beyond the inline buffers, 1-8 MiB segments followed by small paths on the same thread; thorough tier: one path beyond 4 GiB per family",
+ "C09": ("exhaustive enumeration of all paths <= 6 segments over {a,b:c,'',.,..} (stand-alone + 3 embeddings) + proptest random long paths, vs dot-segment model; lengths beyond the inline buffers, 1-8 MiB segments followed by small paths on the same thread; thorough tier: one path beyond 4 GiB per family; normalized_segments() also read by internal iteration (fold, rfold, try_fold, try_rfold, rev().for_each, last) and from alternating ends",
          "normalized_segments / normalized / PathBuf::normalize / PathMut::normalize judged against the N/E model (itself checked against a literal RFC 5.2.4), with idempotence, absoluteness and frame checks.",
          "Trusts the dot-segment model; a lone empty segment may be written the RFC way ('/' or '').", "DESIGN.md 4/C09"),
- "C10": ("model-based stateful property testing (proptest op vectors through one handle) against a list model with shield-reading sets; complete product 31 paths x 5 hosts x all op sequences <= 2 over 12 ops; histories of 63..513 (thorough 4097) calls through one handle",
+ "C10": ("model-based stateful property testing (proptest op vectors through one handle) against a list model with shield-reading sets; complete product 31 paths x 5 hosts x all op sequences <= 2 over 12 ops; histories of 63..513 (thorough 4097) calls through one handle; every embedded history replayed through the public unsafe iri::PathMut::new on a plain Vec<u8>",
          "300 k op vectors per quick run on stand-alone and embedded paths; after every op the handle view must be a valid path that is a reading of the model list; frame and handle-reuse differentials.",
          "A leading '.' before an empty/colon segment is read both as shield and as segment (the text cannot tell); pop on an empty path after an authority may stay or give '/..'.", "DESIGN.md 4/C10"),
- "C11": ("model-based stateful property testing (proptest op vectors through one AuthorityMut handle) against a (userinfo, host, port) model; complete product 60 authority shapes x 5 tails x all call sequences <= 2 over 11 calls; arguments derived from the current value; histories of 63..1025 (thorough 65 537) calls through one handle; 1-5 MiB sub-components",
+ "C11": ("model-based stateful property testing (proptest op vectors through one AuthorityMut handle) against a (userinfo, host, port) model; complete product 60 authority shapes x 5 tails x all call sequences <= 2 over 11 calls; arguments derived from the current value; histories of 63..1025 (thorough 65 537) calls through one handle; 1-5 MiB sub-components; every history replayed through the public unsafe AuthorityMut::new on a plain Vec<u8>",
          "200 k vectors per quick run; exact handle view after every call, exact final text, fresh-handle differential.",
          "Trusts the section-3.2 splitter and recomposition.", "DESIGN.md 4/C11"),
 
  "C02": ("property-based testing (proptest): structural reference generator + accepted mutants vs RFC 3986 Appendix-B splitter oracle; libFuzzer in thorough; the same text also parsed misaligned inside a larger buffer and in a re-used buffer; exhaustive sweeps: every ucschar/iprivate scalar in every slot, every component length 0..1100 (+ every 97th to 70 000)",
          "Generated-input search: ~300k (quick) / millions (thorough) generated references of both families, every accessor of the four borrowed and four owned types compared with an independent Appendix-B splitter, components re-validated, section 5.3 recomposition checked. Finds wrong index arithmetic on any generated shape; gives no proof of absence.",
          "Trusts the harness's Appendix-B splitter and R-ABNF recogniser (self-checked at start-up) and the library's checked constructor as validity gate (its language is C01's subject).", "DESIGN.md 4/C02"),
- "C12": ("exhaustive enumeration of short paths x all next/next_back schedules + proptest random long paths, vs '/'-split oracle; after every partially consumed state every other consuming adaptor (last, count, nth, nth_back, collect, rev, size_hint); every ucschar scalar; runs of '/' of every length 0..1100 at every offset 0..8",
+ "C12": ("exhaustive enumeration of short paths x all next/next_back schedules + proptest random long paths, vs '/'-split oracle; after every partially consumed state every other consuming adaptor (last, count, nth, nth_back, collect, rev, size_hint; fold, rfold, try_fold, rev().for_each); every ucschar scalar; runs of '/' of every length 0..1100 at every offset 0..8",
          "All strings <= 8 over {a,/,.} and <= 5 items over {a,/,é,:,%41}, each under all 2^(n+2) iterator schedules, plus ~200k random paths/schedules; all path queries compared with their definition on the split. Exhaustive inside the enumerated sub-domain, sampled outside.",
          "Trusts the '/'-split and the dot-segment model (self-checked against a literal RFC 3986 5.2.4 implementation).", "DESIGN.md 4/C12"),
 }
